@@ -127,7 +127,7 @@ Proof. unfold count. rewrite filter_app, app_length. lia. Qed.
 Lemma bin_ne_app q k a b : bin_ne q k (a ++ b) = (bin_ne q k a + bin_ne q k b)%N.
 Proof.
   unfold bin_ne. destruct (q_group q).
-  - destruct (fst k =? 0)%N; [apply count_app|reflexivity].
+  - apply count_app.
   - destruct (snd k =? 0)%N; [apply count_app|reflexivity].
 Qed.
 
@@ -262,7 +262,7 @@ Qed.
 Lemma bin_ne_perm q k l l' : Permutation l l' -> bin_ne q k l = bin_ne q k l'.
 Proof.
   intros P. unfold bin_ne. destruct (q_group q).
-  - destruct (fst k =? 0)%N; [apply count_perm; assumption|reflexivity].
+  - apply count_perm; assumption.
   - destruct (snd k =? 0)%N; [apply count_perm; assumption|reflexivity].
 Qed.
 
